@@ -58,6 +58,8 @@ def _q18(ra, rb, enabled, step, ea, eb, reject):
     ra, rb, st, rj = q.pick([0, 1, 2], ra), q.pick([0, 1, 2], rb), q.pick(list(range(10)), step), q.pick([0, 1, 2], reject)
     with q.notrace():
         pr = Project("chain2", sh.get("be", "slurm"))
+        if sh.get("protect_a"):
+            pr.targets["A"].protect = set(pr.targets["A"].flattened_outputs())      # nothing of A can be removed; cleaning A still forgets its record
         pr.add_sources(5)
         w = pr.w
         if ea:
@@ -281,10 +283,10 @@ def q18h(s0: int, s1: int, s2: int, s3: int, start_enabled: bool) -> str:
 
 
 QUERIES = [
-    {"name": "Q18", "fn": q18, "shards": [{"step": k} for k in range(10)] + [{"step": k, "live": 1} for k in (0, 1, 2, 4)] + [{"step": 0, "be": b} for b in ("sge", "lsf")], "timeout": {"quick": 1500, "thorough": 3000},
+    {"name": "Q18", "fn": q18, "shards": [{"step": k} for k in range(10)] + [{"step": k, "live": 1} for k in (0, 1, 2, 4)] + [{"step": 0, "be": b} for b in ("sge", "lsf")] + [{"step": k, "protect_a": 1} for k in (4, 9)], "timeout": {"quick": 1500, "thorough": 3000},
      "bound": "one step from an arbitrary state: record of A and of B each absent / current / outdated (+ a record of a removed target, or no hash file at all), hashing on/off, outputs present or not; "
               "step in {run (with the 1st or 2nd sbatch rejected, or none), run --dry-run, status, touch, clean --all -f, clean / touch with a pattern matching nothing, run / touch / clean --all restricted to the first target}; "
-              "extra shards: both targets still have a queued job from an earlier invocation (no target is asked for its hash); chain of 2 on Slurm (the run step also on SGE and LSF)"},
+              "extra shards: both targets still have a queued job from an earlier invocation (no target is asked for its hash); chain of 2 on Slurm (the run step also on SGE and LSF; the clean steps also with every output of the first target protected)"},
     {"name": "Q18h", "fn": q18h,
      "shards": {"quick": [{"len": 2, "s0": k} for k in range(len(HSTEPS))], "thorough": [{"len": 3, "s0": k} for k in range(len(HSTEPS))] + [{"len": 4, "s0": a, "s1": b} for a in (0, 3, 5, 7, 8) for b in range(len(HSTEPS))]},
      "timeout": {"quick": 1500, "thorough": 3600},
